@@ -8,9 +8,9 @@ import sys
 from functools import lru_cache
 
 TRANSPARENT_CALLS = (
-    "std::ops::Deref::deref", "std::ops::DerefMut::deref_mut", "std::clone::Clone::clone",
-    "std::borrow::Borrow::borrow", "std::convert::AsRef::as_ref", "std::borrow::BorrowMut::borrow_mut",
-    "std::convert::AsMut::as_mut",
+    "core::ops::deref::Deref::deref", "core::ops::deref::DerefMut::deref_mut", "core::clone::Clone::clone",
+    "core::borrow::Borrow::borrow", "core::convert::AsRef::as_ref", "core::borrow::BorrowMut::borrow_mut",
+    "core::convert::AsMut::as_mut",
 )
 
 
